@@ -203,8 +203,10 @@ def run(tier):
         f1 = [fld(x) for x in a1]
         f2 = [fld(x) for x in a2]
         want = [[(("downcast", "Scalar"), ("field", "0"))], [(("downcast", "Scalar"), ("field", "1"))], [(("downcast", "Scalar"), ("field", "3"))]]
-        ok = f1 == want and f2 == want
-        det = {"early": str(f1), "deferred": str(f2)}
+        extra_calls = [c for a in list(vf[0][1]["args"]) + list(reprs[0][1]["rv"]["ops"]) for c in tables.expr_calls(cfg.expr_operand(oe, a))
+                       if not (c and c.lower().endswith(CONVERSIONS))]
+        ok = f1 == want and f2 == want and not extra_calls
+        det = {"early": str(f1), "deferred": str(f2), "non_conversion_calls": extra_calls}
         # both under a switch on self.early_parse
         swok = False
         for bi, b in enumerate(oe.blocks):
